@@ -322,6 +322,8 @@ namespace occa {
       hash().getFullString()
       + modeDevice->kernelHash(kernelProps).getFullString()
       + kernelHeaderHash(kernelProps).getFullString()
+      // okl/enabled, okl/include_paths, ... decide how the source is translated
+      + occa::hash(((const occa::json&) kernelProps)["okl"]).getFullString()
       + sourceHash.getFullString()
     );
 
